@@ -347,6 +347,11 @@ class BuiltinMixin:
         if name in ("py_strip", "py_lower", "py_upper"):
             from . import strings
             return strings.str_method(self, args[0], name[3:], [], {}, fr)
+        if name == "in_re":
+            # in_re(s, "<python regex>") : full-match membership in the translated pattern (ASCII)
+            from . import strings
+            tr = strings.Translated(args[1], 0)
+            return z3.InRe(zstr(args[0]), tr.body)
         if name == "iter_pos":
             return args[0].pos
         if name == "strlen":
